@@ -130,6 +130,9 @@ def run(tier):
     rule_R10(res, prog)
     rule_R11(res, prog)
     rule_R12(res, prog)
+    # round 14: an expired certificate must be SEEN as expired - the UTCTime century pivot of the shared date parser (C03.R13)
+    from rules.C03 import rule_R13 as _c03_r13
+    _c03_r13(res, prog, prop=PROP, rid="C04.R13")
     return res.finish()
 
 
